@@ -181,6 +181,17 @@ func genC11(tier string, rng *Rng) {
 	add("silent", &Scenario{Cancel: 2700, Conns: []ConnScript{silent}})
 	// ---- panel appears later: default (3 s) and configured (1 s) no-connection retry period
 	add("appears", &Scenario{Cancel: 3700, ListenFrom: 1500, Conns: []ConnScript{goodConn(1)}})
+	// the application keeps submitting while there is no panel (periodic state updates): the client still
+	// finds the panel soon after it appears (seed C11-16: the no-connection wait re-armed its timer on every
+	// submission and never dialled again while submissions kept coming)
+	{
+		var list []Submission
+		for j := 0; j < 14; j++ {
+			list = append(list, Submission{Msgs: []*rwp.InboundMessage{{FlowMessage: rwp.InboundMessage_PING}}, Delay: 250})
+		}
+		add("appears-while-submitting", &Scenario{Cancel: 3700, ListenFrom: 1500, SubConn: -1, SubStart: 100, Conns: []ConnScript{goodConn(1)}, Subs: [][]Submission{list}})
+		add("appears-while-submitting-cfg", &Scenario{Cancel: 3700, ListenFrom: 1500, SubConn: -1, SubStart: 100, UseCfg: true, NoConn: 1, Conns: []ConnScript{goodConn(1)}, Subs: [][]Submission{list}})
+	}
 	add("appears-cfg", &Scenario{Cancel: 2700, ListenFrom: 1500, UseCfg: true, NoConn: 1, Conns: []ConnScript{goodConn(1)}})
 	// ---- three loss / reconnect cycles, default and configured reconnection period
 	{
